@@ -358,6 +358,14 @@ class Run:
                                 pass
                     elif op[0] == "SLEEP":
                         self.eng.cmd(f"!sleep {int(op[1])}")
+                    elif op[0] == "FAILIDX":
+                        # fault: segments.idx cannot be replaced (a directory sits where the temporary file is written)
+                        os.makedirs(os.path.join(self.eng.root, "cols", "shard-0", "segments.idx.tmp"), exist_ok=True)
+                    elif op[0] == "UNFAILIDX":
+                        try:
+                            os.rmdir(os.path.join(self.eng.root, "cols", "shard-0", "segments.idx.tmp"))
+                        except OSError:
+                            pass
                     elif op[0] == "HIDE":
                         # read fault: the <uid>.zones file of a segment (op[1] = position among the existing segment
                         # directories, op[2] = event type) becomes unreadable (renamed) until UNHIDE
